@@ -334,6 +334,8 @@ def undischarged_in(ctx, body):
 
 # Audited sites that may legitimately appear in another shape after a behaviour-preserving edit.
 ALT_SHAPES = [
+    {"pattern": r"^re_compiler::ReCompiler::escape\|index:index\(a1\.pattern, Range::Range\{start: a1\.idx, end: add\(a1\.idx, try\(Option::ok_or(_else)?\(Iterator::position\(",
+     "reason": "close = from + position(..) of an element found inside pattern[from..], hence from <= close < len (the error for a missing '}' may be built eagerly or lazily)"},
     {"pattern": r"^<op_choice::Choice as operation::OperationControl>::get_(minimum_)?match_length\|unwrap:unwrap\(v\)$",
      "reason": "the minimum (or first element) of the branches of a Choice taken through an iterator adaptor: Choice::new is called only when more than one branch was parsed, the sequence is not empty"},
     {"pattern": r"^re_matcher::ReMatcher::clear_captured_groups_beyond\|index:index(_mut)?\(a1\.state\.((start|end)_backref|capture_state\.(startn|endn)), (next\(v\) as Some\.0|<Enumerate<I> as Iterator>::next\(v\) as Some\.0\.0)\)$",
